@@ -28,6 +28,8 @@ func checkC02Srv(job *Job, res *Result) {
 		{"mp", "OBJECT", `{"type":"MultiPoint","coordinates":[[10,10],[-10,-10]]}`},
 		{"feat", "OBJECT", `{"type":"Feature","geometry":{"type":"Point","coordinates":[7,7]},"properties":{"a":1}}`},
 		{"empty", "OBJECT", gEmpty},
+		// a stored circle (a point feature with a radius) is a geometry like any other
+		{"circ", "OBJECT", `{"type":"Feature","geometry":{"type":"Point","coordinates":[7.5,7.5]},"properties":{"type":"Circle","radius":60000,"radius_units":"m"}}`},
 		// rectangles reaching across the gap between two disjoint query boxes
 		w("span BOUNDS 4 4 7 7"), w("span2 BOUNDS 2 2 7 7"),
 		// points just inside a circle at its east / west extremes (the circle reaches further
@@ -65,6 +67,9 @@ func checkC02Srv(job *Job, res *Result) {
 		{w("BOUNDS -10 -10 10 10"), w("BOUNDS -1 -1 1 1 CLIPBY BOUNDS -10 -10 10 10"), w("BOUNDS -1 -1 1 1")},
 		{w("BOUNDS -90 -180 90 180"), w("BOUNDS -3 -3 3 3 CLIPBY BOUNDS -20 -20 0 0 CLIPBY BOUNDS -1 -50 50 50"), w("BOUNDS -1 -3 0 0")},
 		{w("BOUNDS -90 -180 90 180"), w("BOUNDS 0 0 3 3 CLIPBY BOUNDS 6 6 8 8"), nil},
+		// a stored point as the area: clipped away entirely, or kept
+		{w("GET areas pt"), w("BOUNDS 20 20 30 30"), nil},
+		{w("GET areas pt"), w("BOUNDS 32 -116 34 -114"), w("GET areas pt")},
 	}
 	x := runExec(job, freezeAllBut(), func(x *Exec) {
 		in := x.Start("L", x.dir+"/L", 9001, nil)
